@@ -447,5 +447,34 @@ def r08_12(ctx):
     delegate(ctx, c05.r05_7, lambda c: "replacing load" in c)
 
 
+def r08_13(ctx):
+    """R08.13 before an entry's stored default is compared, the stored defaults of *everything* its visibility and value can depend on
+    are resolved: the walks of Symbol/Choice.resolve_vis() and resolve_defaults() that call resolve_defaults() on other items
+    iterate `self.dependencies` (prompt conditions, `visible if`, defaults, ranges, selects ...) - a narrower collection such as
+    the items of direct_dep misses a condition that only reaches the prompt, the entry is judged invisible with the *new* Kconfig
+    default of that condition and its stored value is dropped without a record."""
+    from .common import expand_locals
+    repo = ctx.repo
+    n = 0
+    for q in (f"{CORE}:Symbol.resolve_vis", f"{CORE}:Choice.resolve_vis", f"{CORE}:Symbol.resolve_defaults", f"{CORE}:Choice.resolve_defaults"):
+        f = repo.func(q)
+        ctx.analysed(q)
+        for lp in [x for x in ast.walk(f.node) if isinstance(x, ast.For) and isinstance(x.target, ast.Name)]:
+            calls = [c for c in ast.walk(lp) if isinstance(c, ast.Call) and isinstance(c.func, ast.Attribute) and c.func.attr == "resolve_defaults"
+                     and isinstance(c.func.value, ast.Name) and c.func.value.id == lp.target.id]
+            if not calls:
+                continue
+            it = expand_locals(f.node, lp.iter)
+            if it in ("self.syms",):
+                continue  # members of a choice: not a dependency walk
+            n += 1
+            construct = f"{f.short}/dependency walk covers self.dependencies"
+            (ctx.ok(construct, f.loc(lp)) if it == "self.dependencies" else
+             ctx.bad(construct, f"the walk iterates `{it}`: items that reach the visibility only through a prompt condition or `visible if` keep their "
+                     "unresolved (new Kconfig) default while this entry is judged", f.loc(lp)))
+    if n < 4:
+        raise AnalysisError(f"only {n} dependency walks found in resolve_vis / resolve_defaults")
+
+
 def rules():
-    return [("R08.12", r08_12, 1), ("R08.11", r08_11, 3), ("R08.10", r08_10, 3), ("R08.9", r08_9, 5), ("R08.1", r08_1, 2), ("R08.2", r08_2, 2), ("R08.3", r08_3, 8), ("R08.5", r08_5, 3), ("R08.6", r08_6, 8), ("R08.7", r08_7, 6), ("R08.8", r08_8, 1)]
+    return [("R08.13", r08_13, 4), ("R08.12", r08_12, 1), ("R08.11", r08_11, 3), ("R08.10", r08_10, 3), ("R08.9", r08_9, 5), ("R08.1", r08_1, 2), ("R08.2", r08_2, 2), ("R08.3", r08_3, 8), ("R08.5", r08_5, 3), ("R08.6", r08_6, 8), ("R08.7", r08_7, 6), ("R08.8", r08_8, 1)]
